@@ -208,6 +208,12 @@ func CheckFields(input PDU) error { // nolint: gocyclo
 	if input.AuthEventIDs() == nil || input.PrevEventIDs() == nil {
 		return errors.New("gomatrixserverlib: auth events and prev events must not be nil")
 	}
+	// The content must be a JSON object (or null): redaction, and with it event IDs
+	// and signatures, cannot be computed for anything else.
+	if content := gjson.ParseBytes(input.Content()); content.Exists() && !content.IsObject() && content.Type != gjson.Null {
+		return errors.New("gomatrixserverlib: event content must be a JSON object")
+	}
+
 	if l := len(input.JSON()); l > maxEventLength {
 		return EventValidationError{
 			Code:    EventValidationTooLarge,
